@@ -28,9 +28,9 @@ def run(chk):
                               "copies lying around untouched" % len(mem.CALLS))
         # conversely: long histories in which stray copies exist but are only ever overwritten (init) or left alone
         if quick:
-            rnd = mem.random_scripts(chk.rng, 150, 150, "all", stray=0.04)
+            rnd = mem.random_scripts(chk.rng, 600, 150, "all", stray=0.04)
         else:
-            rnd = mem.random_scripts(chk.rng, 1500, 250, "all", stray=0.04, na=6, ng=4)
+            rnd = mem.random_scripts(chk.rng, 4000, 250, "all", stray=0.04, na=6, ng=4)
         vlib.run_scripts(chk, mem, c_exe, m_exe, rnd, mem.oracle)
         base.search_near(chk, c_exe, m_exe)
     return chk.finish()
